@@ -13,7 +13,7 @@
      CRec: [ resumed automaton under every flag: [0] | [1; i; kind; rphase; pphase; bphase] first rejected event
                                                  | [2; rphase; pphase; bphase] never released | [3] conc = 0
                                                  | [4] the repaired image is not one a run can start from ;
-             flags the automaton needs (2 3 5 6 7 for R2 R3 R5 R6 R7) ;
+             flags the automaton needs (2 3 5 6 for R2 R3 R5 R6) ;
              mon_noreexec_diag ;
              mon_converges_diag under no flag ;
              flags the monitor needs ;
@@ -83,12 +83,11 @@ Definition accepted (l : list nat) : bool := match l with [0] => true | _ => fal
 
 Definition minus (d : devs) (f : nat) : devs :=
   {| dev_R2 := dev_R2 d && negb (Nat.eqb f 2); dev_R3 := dev_R3 d && negb (Nat.eqb f 3);
-     dev_R5 := dev_R5 d && negb (Nat.eqb f 5); dev_R6 := dev_R6 d && negb (Nat.eqb f 6);
-     dev_R7 := dev_R7 d && negb (Nat.eqb f 7) |}.
+     dev_R5 := dev_R5 d && negb (Nat.eqb f 5); dev_R6 := dev_R6 d && negb (Nat.eqb f 6) |}.
 
 (* the flags without which [test] fails, given that it passes with all of them *)
 Definition needed (test : devs -> bool) : list nat :=
-  if test dev_none then [] else filter (fun f => negb (test (minus dev_all f))) [2; 3; 5; 6; 7].
+  if test dev_none then [] else filter (fun f => negb (test (minus dev_all f))) [2; 3; 5; 6].
 
 Definition check_rec (known : devs) (sh : shape) (I : image) (tr : list event) (verdict : status) (determined : bool)
   : list (list nat) :=
